@@ -156,6 +156,9 @@ def idc_star(
     logger.debug(f"[{_number_recursions}]: Returned from ID* with estimand {id_star_estimand}")
     if len(conditions) == 0:
         return id_star_estimand
+    if isinstance(id_star_estimand, Zero):
+        # the joint event is impossible: so is the outcome given the conditions (do not divide zero by zero)
+        return id_star_estimand
 
     idc_star_estimand = id_star_estimand.conditional([c.get_base() for c in conditions])
     logger.debug(f"[{_number_recursions}]: Returning from IDC* with estimand {idc_star_estimand}")
